@@ -169,7 +169,7 @@ theorem checkBlock_eq (env : Env) (parent : Option Nat) (ss : List Stmt) (sp : S
          (predeclare env1 ss [] f2).ds ++
            (checkStmts { env1 with fns := sigs :: env.fns } {} ss (predeclare env1 ss [] f2).facts).ds,
          (checkStmts { env1 with fns := sigs :: env.fns } {} ss (predeclare env1 ss [] f2).facts).facts⟩ := by
-  refine ⟨_, _, { env with scope := f.scopes.length }, ?_, rfl, rfl, rfl, retIter_keys3 _ _ _ _, rfl⟩
+  refine ⟨_, _, { env with scope := f.scopes.length }, ?_, rfl, rfl, rfl, retIter_keys3 _ _ _ _ _, rfl⟩
   split <;> simp
 
 /-- What a clean `predeclare` says about the own function scope of the block. -/
